@@ -178,3 +178,12 @@ reg("C22", "model_checking", "TLA+ reference TcpStream (delivery for a stream of
     "every well-formed frame is delivered once in stream order, framed-but-malformed frames are skipped, nothing is delivered twice.",
     "Trusted: TLC. Frame identity travels in the channel / session id octet of the generated frames.",
     "DESIGN.md section 5 C22")
+
+reg("C14", "model_checking", "TLA+ spec CemiHandler (dispatch table, fresh-confirmation rule) with the shared-event design model-checked by TLC (deviation refuted); trace validation of the real CEMIHandler with a scripted interface under virtual time",
+    "The shared confirmation event design (clear, hand over, wait) is model-checked with two senders and confirmations at any point; never clearing the event must give "
+    "a counterexample; the real CEMIHandler receives real cEMI octets of every message code x destination x transport PDU and runs 1-3 concurrent sends whose interface call "
+    "is slow / raises and whose confirmation arrives before the call returns, after it, twice, late or never; every trace (telegrams queued and management calls per frame, "
+    "hand-over, results with times) must be a behaviour of the spec: group data to the queue exactly once, management only for broadcast / own frames, success only after a "
+    "confirmation that followed the hand-over, failure within 3 s of the interface call returning.",
+    "Trusted: TLC, the virtual-time loop, the scripted interface. T_Data_Tag_Group frames may or may not reach management (the statement is silent).",
+    "DESIGN.md section 5 C14")
